@@ -14,7 +14,7 @@ RULE = ("(i) generated noisy runs in the three configurations (auto-detected, de
         "design size up; oracle on the tail of the call log vs OptimizeResult: x evaluated before the final samples, the last n "
         "calls are at x, yval_vec = those observations (for n=1 followed by an earlier observation at x), fval = mean, fsd = "
         "standard error, ysd_vec = the SDs the target reported for them (specified noise) or None. (ii) detection boundary: the "
-        "first two target values are scripted as (v, v+delta) with delta around tol_noise = eps*tol_fun under auto-detection; "
+        "first two target values are scripted as (v, v+delta) with delta around tol_noise (derived eps*tol_fun, or set by the user: 0, 1e-8, 0.05, 2) under auto-detection; "
         "target_type must be stochastic iff |delta| > tol_noise. Non-trivial = noisy run with n >= 1 and >= 2 iterations, or a "
         "boundary case with 0 < |delta| <= 10 tol_noise.")
 ASSUMPTIONS = [
@@ -151,10 +151,16 @@ def det_cases(draw):
     tol_fun = draw(st.sampled_from([1e-3, 1e-3, 1.0, 1e-6]))
     if tol_fun != 1e-3:
         scn["options"]["tol_fun"] = tol_fun
-    v0 = draw(st.sampled_from([0.0, 1e-5, 3e-10, -2e-7, 0.5, 1e3]))
+    v0 = draw(st.sampled_from([0.0, 1e-5, 3e-10, -2e-7, 0.5, 50.0, 1e3]))
     mult = draw(st.sampled_from([0.0, 1e-6, 0.4, 0.9, 1.0, 1.1, 2.0, 9.0, 1e3, 1e7, 1e15]))
     sign = draw(st.sampled_from([1.0, -1.0]))
-    return dict(scn=scn, v0=v0, delta=sign * mult * np.spacing(1.0) * tol_fun, tol_fun=tol_fun)
+    # the threshold itself is an (advanced) option: absent = eps * tol_fun; 0 = any difference at all means noise
+    tol_noise = draw(st.sampled_from([None, None, None, 0.0, 1e-8, 0.05, 2.0]))
+    if tol_noise is not None:
+        scn["options"]["tol_noise"] = tol_noise
+    eff = np.spacing(1.0) * tol_fun if tol_noise is None else tol_noise
+    delta = sign * mult * (eff if eff > 0 else draw(st.sampled_from([0.0, 5e-324, 1e-300, 1e-9])))
+    return dict(scn=scn, v0=v0, delta=delta, tol_fun=tol_fun, tol_noise=tol_noise)
 
 
 def body_det(case):
@@ -175,14 +181,15 @@ def body_det(case):
     nt = False
     if tr.result is not None and len(tr.calls) >= 2:
         actual = abs(tr.calls[1]["y"] - tr.calls[0]["y"])
-        tol_noise = np.spacing(1.0) * case["tol_fun"]
+        tol_noise = np.spacing(1.0) * case["tol_fun"] if case.get("tol_noise") is None else case["tol_noise"]
         exp = "stochastic" if actual > tol_noise else "deterministic"
+        labs.append("detect:tol_noise=" + ("derived" if case.get("tol_noise") is None else repr(case["tol_noise"])))
         if tr.result["target_type"] != exp:
             v.append(viol("f:noise-detection", f"first two values differ by {actual!r}, tol_noise={tol_noise!r}: target_type={tr.result['target_type']!r} expected {exp!r}",
                           site=exp))
         if np.any(np.abs(tr.calls[1]["x"] - tr.calls[0]["x"]) > 0):
             v.append(viol("f:noise-test-not-at-starting-point", f"{tr.calls[0]['x'].tolist()} vs {tr.calls[1]['x'].tolist()}"))
-        nt = 0 < actual <= 10 * tol_noise
+        nt = (0 < actual <= 10 * tol_noise) or (tol_noise == 0 and actual <= 1e-9)
         labs.append("detect:" + exp)
         if actual == 0:
             labs.append("detect:identical")
